@@ -14,7 +14,7 @@ RULE = ("parse cases (no raw-HTML plugin): scheme spelling (javascript, vbscript
         "tab/newline removed, scheme lower-cased), is not javascript/vbscript/file/data (data:image/gif|png|jpeg|webp excepted). "
         "Non-trivial = the URL spells a dangerous scheme after decoding; distinct = distinct documents.")
 SCHEMES = ["javascript", "vbscript", "file", "data", "JavaScript", "VBSCRIPT", "File", "DATA", "jAvAsCrIpT", "http", "mailto", "x-javascript", "javascripts"]
-TAILS = [":alert(1)", ":x", "://x", ":text/html,<b>", ":image/png;base64,AA", ":image/svg+xml;x", ":image/gif;", ":IMAGE/PNG;x", ":image/png", ":image/jpeg;a", ":image/webp;", ":", ""]
+TAILS = [":alert(1)//data:image/png;", ":x;data:image/gif;base64", ":data:image/jpeg;", ":alert(1)", ":x", "://x", ":text/html,<b>", ":image/png;base64,AA", ":image/svg+xml;x", ":image/gif;", ":IMAGE/PNG;x", ":image/png", ":image/jpeg;a", ":image/webp;", ":", ""]
 
 
 def obf(rng, url):
